@@ -20,71 +20,57 @@ def _comp(e):
 
 
 def thread_rule(ctx):
+    """CMP-THREAD by partial evaluation of the cascade helper itself: applied to k uninterpreted
+    (outputs, log-det) functions in a list, a tuple and a single-pass generator, with a symbolic
+    input and context, it must return f_k(...f_1(x, ctx)..., ctx) and the sum of every log-det,
+    once each -- however the loop and the accumulation are written."""
+    from ..peval import PEval, Obj, Stage, Bound, Sym, PIter, Undecided as PUndecided, Raises as PRaises, mk_sum, show
+
     p = ctx.p
     cls = p.find_class("CompositeTransform", "nflows.transforms.base")
+    res = RuleResult("CMP-THREAD", "the cascade applies the functions in iteration order to the running outputs with the context, and returns the last outputs and the sum of every log-det")
     fi = cls.methods.get("_cascade")
     if fi is None:
-        raise AnalysisIncomplete("CompositeTransform._cascade missing")
-    res = RuleResult("CMP-THREAD", "_cascade applies the functions in iteration order to the running outputs, rebinds them, accumulates every log-det and returns both")
+        # no separate helper: the cascade is part of forward / inverse, which CMP-EVAL evaluates
+        res.ok("no _cascade helper: the cascade is evaluated as part of forward / inverse (CMP-EVAL)", nontrivial=False)
+        return res
     params = [a for a, _ in fi.params()]
     if len(params) < 3:
-        raise AnalysisIncomplete("_cascade signature changed")
-    x, funcs, cx = params[0], params[1], params[2]
-    loops = [n for n in fi.node.body if isinstance(n, ast.For)]
-    if len(loops) != 1:
-        res.undecide("_cascade", "expected exactly one loop")
+        res.undecide("_cascade", "signature is not (inputs, funcs, context)")
         return res
-    lp = loops[0]
-    if norm_text(lp.iter) != funcs or not isinstance(lp.target, ast.Name):
-        res.fail(Finding("CMP-THREAD", fi.module, fi.qualname, lp, "the loop must iterate `%s` in the order given (found `%s`)" % (funcs, norm_text(lp.iter))))
-        return res
-    fv = lp.target.id
-    paths = [pp for pp in paths_of(fi.node) if pp.kind == "return"]
-    for path in paths:
-        r = path.ret
-        node = path.ret_node
-        if not (isinstance(r, ast.Tuple) and len(r.elts) == 2):
-            res.fail(Finding("CMP-THREAD", fi.module, fi.qualname, node, "_cascade must return (outputs, total_logabsdet)"))
-            continue
-        call, i = _comp(r.elts[0])
-        if call is None or i != 0 or norm_text(call.func) != fv:
-            res.fail(Finding("CMP-THREAD", fi.module, fi.qualname, node, "returned outputs are not the first component of the last function applied in the loop"))
-            continue
-        a0 = norm_text(call.args[0]) if call.args else None
-        if a0 != x:
-            res.fail(Finding("CMP-THREAD", fi.module, fi.qualname, node, "each function must be applied to the running outputs (initially the inputs); it is applied to `%s`" % a0))
-            continue
-        a1 = norm_text(call.args[1]) if len(call.args) > 1 else (norm_text(next((k.value for k in call.keywords if k.arg == "context"), ast.Constant(value=None))))
-        if a1 != cx:
-            res.fail(Finding("CMP-THREAD", fi.module, fi.qualname, node, "each function must receive the context"))
-            continue
-        terms = signed_terms(r.elts[1])
+    x, cx = ("x",), ("ctx",)
+    methods = {nm: m.node for nm, m in cls.methods.items()}
+    ks = range(1, 8) if getattr(ctx, "tier", "quick") == "thorough" else (1, 2, 3, 4)
+    for k in ks:
+        want = x
         lds = []
-        zeros = 0
-        other = []
-        for s, t in terms:
-            c2, j = _comp(t)
-            if c2 is not None and j == 1 and norm_text(c2) == norm_text(call):
-                lds.append(s)
-            elif isinstance(t, ast.Call) and norm_text(t.func).split(".")[-1] in ("new_zeros", "zeros", "zeros_like"):
-                zeros += 1
+        for i in range(1, k + 1):
+            lds.append(("ld", "T%d" % i, "fwd", want, cx))
+            want = ("out", "T%d" % i, "fwd", want, cx)
+        want_ld = mk_sum(*lds)
+        for kind in ("list", "generator"):
+            funcs = [Bound(Stage("T%d" % i), "fwd") for i in range(1, k + 1)]
+            arg = funcs if kind == "list" else PIter(funcs)
+            pe = PEval(Obj({}, methods))
+            tag = "_cascade over a %s of %d function(s)" % (kind, k)
+            try:
+                is_static = fi.is_static
+                r = pe._run_function(fi.node, [Sym(x), arg, Sym(cx)], {}, None if is_static else pe.self_obj)
+            except PUndecided as ex:
+                res.undecide(tag, str(ex))
+                continue
+            except PRaises as ex:
+                res.fail(Finding("CMP-THREAD", fi.module, fi.qualname, ex.node if ex.node is not None else fi.node, "%s raises: %s" % (tag, ex.what), construct=tag))
+                continue
+            if not (isinstance(r, tuple) and len(r) == 2 and all(isinstance(v, Sym) for v in r)):
+                res.fail(Finding("CMP-THREAD", fi.module, fi.qualname, fi.node, "%s must return (outputs, total log-det)" % tag, construct=tag))
+                continue
+            if r[0].term != want:
+                res.fail(Finding("CMP-THREAD", fi.module, fi.qualname, fi.node, "%s returns outputs `%s`; every function must be applied, in order, to the running outputs with the context: `%s`" % (tag, show(r[0].term)[:100], show(want)[:100]), construct="outputs of _cascade"))
+            elif r[1].term != want_ld:
+                res.fail(Finding("CMP-THREAD", fi.module, fi.qualname, fi.node, "%s returns the log-det `%s`; it must be the sum of every applied function's log-det, once each: `%s`" % (tag, show(r[1].term)[:100], show(want_ld)[:100]), construct="log-det of _cascade"))
             else:
-                other.append(norm_text(t)[:40])
-        if lds != [1] or other:
-            res.fail(Finding("CMP-THREAD", fi.module, fi.qualname, node, "total log-det must be zeros + the log-det of every function applied (sign +, once); found signs %s extra %s" % (lds, other)))
-            continue
-        res.ok("_cascade: outputs threaded through `%s`, log-dets summed from zeros" % fv)
-    # the carried variable is rebound inside the loop (not only on the last iteration)
-    rebinding = [st for st in lp.body if isinstance(st, ast.Assign) and isinstance(st.targets[0], ast.Tuple) and isinstance(st.value, ast.Call) and norm_text(st.value.func) == fv]
-    if rebinding:
-        tnames = [norm_text(e) for e in rebinding[0].targets[0].elts]
-        a0 = norm_text(rebinding[0].value.args[0]) if rebinding[0].value.args else None
-        if tnames and tnames[0] == a0:
-            res.ok("loop rebinds `%s` from its own previous value" % a0)
-        else:
-            res.fail(Finding("CMP-THREAD", fi.module, fi.qualname, rebinding[0], "the loop applies every function to `%s` but stores the result in `%s`: later functions do not see earlier outputs" % (a0, tnames[0] if tnames else None)))
-    if not paths:
-        res.undecide("_cascade", "no returning path")
+                res.ok("%s = %s" % (tag, show(want)[:70]))
     return res
 
 
